@@ -31,6 +31,7 @@ GUARD_PROP = {
     "NothingOfARunAfterItsEnd": "C07", "JobSpawnedOnce": "C07", "JobEndedAtMostOnceAfterSpawn": "C07",
     "TaskOpensWithSpawnOnly": "C17", "FrameAfterTerminal": "C17", "RunningAtMostOnce": "C17", "CancelRecordedFirst": "C17",
     "CacheNeverAheadOfTruth": "C05", "RecordedBeforePublished": "C06",
+    "NoOverlap": "C11", "SideEffectsAfterTheToolFinished": "C11",
 }
 
 # Tests whose process writes frames into a log by hand (EventLog::append / write_snapshot with literal seqs, or a
@@ -102,7 +103,8 @@ def frame_event(fr):
     # a cursor frame written by an explicit rotate names no live run (C07-3 is about the ones that do)
     return {"ev": "f", "sk": sk, "s": str(fr.get("stream_id") or fr.get("session_id") or ""), "seq": int(fr.get("seq", -1)),
             "t": short, "r": str(fr.get("run_session_id") or ""), "m": str(m or ""), "j": str(fr.get("job_id") or ""),
-            "st": str(fr.get("status") or "") if t == "tool_task_status" else ""}
+            "st": str(fr.get("status") or "") if t == "tool_task_status" else "",
+            "tid": str(fr.get("tool_id") or "") if t == "continuity_tool_side_effects" else ""}
 
 
 def project(path):
@@ -131,6 +133,11 @@ def project(path):
                 frames += 1
             elif e == "cache.full.flushed" and d.get("stream") is not None and d.get("seq") is not None:
                 evs.append({"ev": "c", "s": str(d["stream"]), "q": int(d["seq"])})
+            elif e in ("tool.exec.begin", "tool.exec.end") and d.get("tool_id"):
+                if d.get("tool") not in ("read", "ls", "grep", "artifact_fetch"):
+                    evs.append({"ev": "xb" if e.endswith("begin") else "xe", "id": str(d["tool_id"])})
+            elif e in ("task.proc.spawned", "task.proc.exited") and d.get("stream"):
+                evs.append({"ev": "xb" if e.endswith("spawned") else "xe", "id": "task:" + str(d["stream"])})
             elif e in ("emit.recorded", "emit.published") and d.get("stream") is not None:
                 evs.append({"ev": "rec" if e == "emit.recorded" else "pub", "s": str(d["stream"]), "q": int(d.get("seq", -1))})
     return name, evs, frames
